@@ -100,11 +100,13 @@ pub enum Family {
     ErrorHalt,
     Random,
     InputCheck,
+    /// copies the interrupt status register (0xF9) and the board status (0xF3) to the outputs in a loop
+    StatusMirror,
 }
 
 /// Generate a program. Returns (source text, family).
 pub fn program(rng: &mut Rng) -> (String, Family) {
-    let fam = *rng.pick(&[Family::Addition, Family::BoardMirror, Family::Counter, Family::Interrupt, Family::ErrorHalt, Family::Random, Family::Random, Family::InputCheck]);
+    let fam = *rng.pick(&[Family::Addition, Family::BoardMirror, Family::Counter, Family::Interrupt, Family::ErrorHalt, Family::Random, Family::Random, Family::InputCheck, Family::StatusMirror]);
     let mut s = String::from("#! mrasm");
     if rng.chance(1, 4) {
         s.push_str(" ; header comment");
@@ -255,6 +257,31 @@ pub fn program(rng: &mut Rng) -> (String, Family) {
             if rng.chance(1, 4) {
                 line(rng, &mut s, ".DB 1, 0x02, 0b11");
                 line(rng, &mut s, ".DW 0x1234");
+            }
+        }
+        Family::StatusMirror => {
+            if rng.bool() {
+                line(rng, &mut s, "BITS (0xF9), 1");
+            }
+            s.push_str("LOOP:\n");
+            line(rng, &mut s, "LD R0, (0xF9)");
+            line(rng, &mut s, "ST (0xFF), R0");
+            if rng.bool() {
+                line(rng, &mut s, "LD R1, (0xF3)");
+                line(rng, &mut s, "ST (0xFE), R1");
+            } else {
+                line(rng, &mut s, "OR R2, R0");
+                line(rng, &mut s, "ST (0xFE), R2");
+            }
+            if rng.chance(1, 4) {
+                let k = 1 + rng.below(12) as u8;
+                let t = num(rng, k);
+                line(rng, &mut s, "INC R1");
+                line(rng, &mut s, &format!("CMP R1, {}", t));
+                line(rng, &mut s, "JZC LOOP");
+                line(rng, &mut s, "STOP");
+            } else {
+                line(rng, &mut s, "JR LOOP");
             }
         }
         Family::InputCheck => {
